@@ -179,7 +179,8 @@ class Check(BaseCheck):
         res = core.run_limited(impl_orient, (v, t, case.get("it")), 60.0)
         if not b["manifold"]:
             if not (res[0] == "err" and res[1] == "ValueError"):
-                return core.Violation("non-manifold", "mesh with an edge in more than two triangles not rejected with ValueError: %s" % (res[:2],), case)
+                return core.Violation("non-manifold", "mesh with an edge in more than two triangles not rejected with ValueError: orient_ %s" % (
+                    ("returned %s" % (res[1][0],)) if res[0] == "ok" else str(res[:2])[:80]), case)
             return None
         if case.get("name", "").startswith("mobius") or not shares_edge_all(t):
             return None
